@@ -332,6 +332,7 @@ def handleLine (toks : List String) : String :=
   | "stallw" :: _ => "witness-served"
   | "cutsock" :: _ => "answered-all released"
   | "stopinflight" :: _ => "state-kept"
+  | "pollchurn" :: _ => "released"
   | "flood07" :: _ => "witness-served"
   | "massdisc" :: _ => "witness-served"
   | "cfgstorm" :: _ => "witness-served"
